@@ -465,9 +465,27 @@ func genGrp(r *rng, o *out, do func(string) string) {
 		other = genInstance(r, ot, genTemplate(r, 2, &n2), 2, 3, 5)
 		do("setgrp b " + other.String())
 	}
+	if r.chance(1, 4) {
+		// the group is set twice: first a LARGER instance of the same template (the second call must replace all of it)
+		big := genInstance(r, gt, tmpl, 3, 3, 5)
+		for len(big.entries) > 0 && len(big.entries) <= len(inst.entries) {
+			big.entries = append(big.entries, big.entries[r.intn(len(big.entries))])
+		}
+		if len(big.entries) > 0 {
+			do("setgrp b " + big.String())
+			if r.chance(1, 2) {
+				do("build")
+			}
+			o.kind("grp.set-twice")
+		}
+	}
 	do("setgrp b " + inst.String())
 	if r.chance(1, 4) {
 		do("set t 93 " + hx([]byte("3")))
+	}
+	if r.chance(1, 3) {
+		// read back from the field map itself, before any build / parse
+		do(fmt.Sprintf("getgrp b %d %s", gt, tmplString(tmpl)))
 	}
 	do("build")
 	res := do("reparse n")
